@@ -78,6 +78,8 @@ _W = [
     "{ anchor(req: 1, inn: {v: 1}, lnn: [1]) { ... on AnchorObj { n: name } ... on Query { n: __typename } ...ExF } } "
     "fragment ExF on AnchorObj { ... on AnchorObj { n: id } }",
 ]
+# seeded C05-b / C06-b: variable positions (see gen_valid.variable_position_forms)
+_W += [gen_valid.render({"defs": defs}, "plain") for _n, defs in gen_valid.variable_position_forms(random.Random(7))]
 # seeded C05-a: a fragment's field node is the first of two merged nodes at two places
 _MERGE = ("{ a: anchor(req: 1, inn: {v: 1}, lnn: [1]) { ...MF self { name } } "
           "b: anchor(req: 1, inn: {v: 1}, lnn: [1]) { ...MF self { count } } } "
@@ -95,9 +97,41 @@ def corpus():
                      "query Q { anchor(req: 1, inn: {v: 1}, lnn: [1]) { ...Ta } }"):
             out.append({"kind": "rules", "sdl": WITNESS_SDL, "text": head + " " + " ".join(perm), "origin": "witness"})
     out.append({"kind": "shape", "sdl": WITNESS_SDL, "text": _W[0], "opname": None, "vars": {}, "world": 0, "origin": "witness"})
+    for name, defs in gen_valid.variable_position_forms(random.Random(7)):
+        if name.startswith("shared"):
+            for o in defs[:-1]:
+                out.append({"kind": "shape", "sdl": WITNESS_SDL, "text": gen_valid.render({"defs": defs}, "plain"),
+                            "opname": o["name"], "vars": {"zf": None if o["vars"][0]["type"] == "Boolean" else True},
+                            "world": 0, "origin": "witness"})
     for world in (0, 1, 2):
         out.append({"kind": "shape", "sdl": WITNESS_SDL, "text": _MERGE, "opname": None, "vars": {}, "world": world,
                     "origin": "witness"})
+    return out
+
+
+def _var_type(schema, texpr):
+    return schema.get_type_from_literal(
+        parse("query($x: %s){a}" % texpr).definitions[0].variable_definitions[0].type)
+
+
+def _exec_cases(rng, schema, sdl, tree, origin, null_bias=False):
+    from py_gql.exc import UnknownType
+    from py_gql.schema import NonNullType
+    out = []
+    text = gen_valid.render(tree, "plain")
+    for op in [d for d in tree["defs"] if d["kind"] == "op" and d["op"] != "subscription" and d["name"]][:4]:
+        vs = {}
+        try:
+            for v in op["vars"]:
+                t = _var_type(schema, v["type"])
+                if null_bias and not isinstance(t, NonNullType):
+                    vs[v["name"]] = None
+                else:
+                    vs[v["name"]] = gen_valid.gen_var_value(rng, t)
+        except (UnknownType, GraphQLError):
+            continue
+        out.append({"kind": "shape", "sdl": sdl, "text": text, "opname": op["name"], "vars": vs, "world": 0,
+                    "origin": origin})
     return out
 
 
@@ -134,6 +168,10 @@ def generate(rng, tier):
                     t = gen_valid.violate(rng, schema, rng.choice(valid), label)
                     if t is not None:
                         cases.append(_case(sdl, t, "violator", label))
+                        if label == 24:
+                            # executed (when the implementation accepts it) per operation with
+                            # values each declaration accepts, null where nullable
+                            cases.extend(_exec_cases(rng, schema, sdl, t, "violator", null_bias=True))
                         break
         for _ in range(n_mut):
             t = rng.choice(valid)
@@ -210,6 +248,8 @@ def canonical(case):
 
 
 def classify(case, obs):
+    if "exec_exc" in obs:
+        return "executing-a-validated-document-raises-nothing", None
     if case["kind"] == "shape" and "data" in obs:
         return "response-data-has-the-shape-of-selection-and-schema", None
     if obs.get("raised"):
